@@ -647,6 +647,9 @@ class DAGRunConcurrentManager(DAGRunManagerLike):
 
         to_unlock_descendants = True
 
+        # A duplicate request only waits for the result of the first one; that result is already saved
+        is_duplicate_request = self._node_storage.exists_processed_node(node_id)
+
         try:
             result = await self._execute_node(
                 force_default=force_default,
@@ -673,7 +676,9 @@ class DAGRunConcurrentManager(DAGRunManagerLike):
             self._node_storage.set_node_result(node_id, result)
 
             # TODO: Needs to reorganize saving policy for artifact storage
-            await self.ctx.save_node_result(node_id, result)
+            # Recurrent markers and errors kept as values inside OneOf subgraphs are not artifacts of the node
+            if not is_duplicate_request and not isinstance(result, (Recurrent, BaseException)):
+                await self.ctx.save_node_result(node_id, result)
 
         finally:
             if not to_unlock_descendants:
